@@ -651,12 +651,14 @@ func multiImportCase(col *Collector, fa, fb, fc string, swap bool) {
 
 // a main file importing three files, the second and the third of which define the SAME task (the third extends what the
 // second says): whatever the four formats, the same definitions load as from four YAML files
-var tripleRef struct {
+var tripleRef [2]struct {
 	once sync.Once
 	out  string
 }
 
-func tripleImportRun(fa, f1, f2, f3 string) (string, cliResult) {
+// variant 0: the later imports define one task and nothing else (no section the main file lacks); 1: two tasks with
+// lists and mappings of every kind, and a contexts section
+func tripleImportRun(fa, f1, f2, f3 string, variant int) (string, cliResult) {
 	dir := newScratchDir("c16t")
 	defer os.RemoveAll(dir)
 	docs := []map[string]interface{}{
@@ -671,6 +673,10 @@ func tripleImportRun(fa, f1, f2, f3 string) (string, cliResult) {
 			"shared2": map[string]interface{}{"env": map[string]interface{}{"D": "d-three"}, "variables": map[string]interface{}{"Y": "y-three"}, "context": "cx"},
 		}, "contexts": map[string]interface{}{"cx": map[string]interface{}{"env": map[string]interface{}{"L": "l-three"}}}},
 	}
+	if variant == 0 {
+		docs[2] = map[string]interface{}{"tasks": map[string]interface{}{"shared": map[string]interface{}{"command": []interface{}{"echo shared $A $B"}, "env": map[string]interface{}{"A": "from-two"}}}}
+		docs[3] = map[string]interface{}{"tasks": map[string]interface{}{"shared": map[string]interface{}{"env": map[string]interface{}{"B": "from-three"}, "description": "extended by the third import"}}}
+	}
 	for i, name := range []string{"main." + fa, "one." + f1, "two." + f2, "three." + f3} {
 		text, _ := serialise(docs[i], strings.TrimPrefix(filepath.Ext(name), "."))
 		os.WriteFile(filepath.Join(dir, name), []byte(text), 0644)
@@ -679,7 +685,7 @@ func tripleImportRun(fa, f1, f2, f3 string) (string, cliResult) {
 	r := runTaskctl(dir, nil, 15*time.Second, "-c", cfgPath, "list")
 	out := fmt.Sprintf("list exit=%d\n%s\n", r.exit, r.stdout)
 	if r.exit == 0 {
-		for _, tn := range []string{"shared", "shared2"} {
+		for _, tn := range []string{"shared", "shared2"}[:1+variant] {
 			r2 := runTaskctl(dir, nil, 15*time.Second, "-c", cfgPath, "show", tn)
 			r3 := runTaskctl(dir, nil, 15*time.Second, "-c", cfgPath, "--output", "raw", "-q", tn)
 			out += fmt.Sprintf("show %s exit=%d\n%s\nrun exit=%d\n%s\n", tn, r2.exit, r2.stdout, r3.exit, r3.stdout)
@@ -689,15 +695,22 @@ func tripleImportRun(fa, f1, f2, f3 string) (string, cliResult) {
 }
 
 func tripleImportCase(col *Collector, fa, f1, f2, f3 string) {
-	tripleRef.once.Do(func() { tripleRef.out, _ = tripleImportRun("yaml", "yaml", "yaml", "yaml") })
-	out, r := tripleImportRun(fa, f1, f2, f3)
-	cs := Case{Tags: []string{"triple-import"}, NonTrivial: true, Replay: fmt.Sprintf("main.%s imports [one.%s, two.%s, three.%s]; two and three define the same task", fa, f1, f2, f3)}
+	for variant := 0; variant < 2; variant++ {
+		tripleImportCase1(col, fa, f1, f2, f3, variant)
+	}
+}
+
+func tripleImportCase1(col *Collector, fa, f1, f2, f3 string, variant int) {
+	ref := &tripleRef[variant]
+	ref.once.Do(func() { ref.out, _ = tripleImportRun("yaml", "yaml", "yaml", "yaml", variant) })
+	out, r := tripleImportRun(fa, f1, f2, f3, variant)
+	cs := Case{Tags: []string{"triple-import"}, NonTrivial: true, Replay: fmt.Sprintf("main.%s imports [one.%s, two.%s, three.%s]; two and three define the same task%s", fa, f1, f2, f3, map[int]string{0: "", 1: "s (two of them, with lists and mappings of every kind) and a context"}[variant])}
 	cs.Impl = fmt.Sprintf("exit=%d", r.exit)
 	switch {
 	case r.panicked || r.timedOut || (r.exit != 0 && r.exit != 1):
 		cs.Fail, cs.Sig = fmt.Sprintf("loading crashed: %s", clipStr(firstPanicLine(r.stderr), 200)), "c16-cross-import"
-	case out != tripleRef.out:
-		cs.Fail, cs.Sig = fmt.Sprintf("list / show / run differ from what the four YAML files give: %s %s", firstDiff(tripleRef.out, out), lastLines(r.stderr, 1)), "c16-cross-import"
+	case out != ref.out:
+		cs.Fail, cs.Sig = fmt.Sprintf("list / show / run differ from what the four YAML files give: %s %s", firstDiff(ref.out, out), lastLines(r.stderr, 1)), "c16-cross-import"
 	}
 	col.Add(cs)
 }
